@@ -477,11 +477,14 @@ pub fn generate(rng: &mut Rng, tier: Tier, emit_all: &mut dyn FnMut(String)) {
         "map A16385;o1000000;l16384;a1;l0;a2".to_owned(),
         "map A32768;o1003616;l20000;a1;a2;l3616;a3".to_owned(),
     ];
-    for i in 0..(if quick { 200 } else { 4_000 }) {
-        heavy.push(if i % 5 == 4 { gen_map_high(rng) } else { gen_ids(rng) });
+    // thorough: 600 `ids` + 120 `map` (about 0.5 s of model time each; the thorough stream has about 1.6 M cases, so
+    // a stride of 2 000 places all of them inside the stream and none is left for the last chunk)
+    let (count, every) = if quick { (200, 5) } else { (720, 6) };
+    for i in 0..count {
+        heavy.push(if i % every == every - 1 { gen_map_high(rng) } else { gen_ids(rng) });
     }
     heavy.reverse();
-    let stride = if quick { 800 } else { 1_000 };
+    let stride = if quick { 800 } else { 2_000 };
     let mut emitted = 0usize;
     let mut emit_spread = |c: String| {
         emit_all(c);
